@@ -54,6 +54,8 @@ def exc_class(e):
             return 'ENOSPC'
         if e.errno == errno.ENOTEMPTY:
             return 'ENOTEMPTY'
+        if e.errno == errno.EINVAL and type(e) is OSError:
+            return 'EINVAL'
         if e.errno == errno.EACCES and not isinstance(e, PermissionError):
             return 'EACCES'
     return type(e).__name__
@@ -184,6 +186,8 @@ def apply_model(t, op):
             return 'FileNotFoundError'
         if tpar is None or tpar == 'notdir' or tpar['kind'] != 'dir':
             return 'FileNotFoundError'
+        if node['kind'] == 'dir' and tnode is not node and (op['target'].upper().rstrip('/') + '/').startswith(path.upper().rstrip('/') + '/'):
+            return 'EINVAL'         # a directory cannot be moved into its own sub-tree (names compare case-insensitively)
         if tnode not in (None, 'notdir') and tnode['kind'] == 'dir' and tnode is not node:
             return 'IsADirectoryError'
         if tnode not in (None, 'notdir') and node['kind'] == 'dir' and tnode is not node:
@@ -380,8 +384,13 @@ def gen_op(rng, t, cs, dirs_ok=True, big=False, sessions=False):
             tgt = rng.choice(dirs) + '/' + src.rsplit('/', 1)[1]     # the same name in another (or the same) directory
         else:
             tgt = new_path()
-        if t.get(src)['kind'] == 'dir' and (tgt.upper() + '/').startswith(src.upper() + '/') and tgt.upper() != src.upper():
-            tgt = '/' + rng.choice(NAMES)              # never into itself
+        if t.get(src)['kind'] == 'dir' and rng.random() < 0.12:
+            # into its own sub-tree (must be refused), spelled in the same or in another case
+            inner = [p for p, k in existing if k['kind'] == 'dir' and (p.upper() + '/').startswith(src.upper() + '/')]
+            base = rng.choice(inner)
+            tgt = (base.swapcase() if rng.random() < 0.5 else base) + '/' + rng.choice(NAMES)
+        elif t.get(src)['kind'] == 'dir' and (tgt.upper() + '/').startswith(src.upper() + '/') and tgt.upper() != src.upper():
+            tgt = '/' + rng.choice(NAMES)
         return dict(op='rename', path=variant(src), target=tgt)
     p = variant(rng.choice(files)) if files and rng.random() < 0.6 else new_path()
     return dict(op='touch', path=p)
